@@ -336,42 +336,53 @@ Section Sound.
     - destruct (lookup d k t); cbn; split; try intros v'; congruence.
   Qed.
 
+  Definition olf_lookup (k : bytes) (olf : option (bytes * bytes)) : option bytes :=
+    match olf with Some (k0, v0) => if bytes_eqb k0 k then Some v0 else None | None => None end.
+
+  Lemma lf_go_prunes lf olf :
+    prunes_lf lf olf ->
+    (forall fresh d k, plookup_go H fresh d k lf = Unknown \/
+                       plookup_go H fresh d k lf = of_opt (olf_lookup k olf)) \/ collision H.
+  Proof.
+    destruct lf as [|h|k1 v1|]; cbn [prunes_lf]; intros P; try contradiction.
+    - subst olf. left. intros fresh d k. right. reflexivity.
+    - destruct (bytes_eqb h (H [])) eqn:Z.
+      + pose proof Z as Z'. apply bytes_eqb_eq in Z'. subst h.
+        destruct olf as [[k0 v0]|].
+        * right. rewrite opt_some_eval in Z'. symmetry in Z'. eapply coll; [|exact Z']. apply nil_ne_leaf_pre.
+        * left. intros fresh d k. right. cbn [plookup_go]. rewrite Z. reflexivity.
+      + left. intros fresh d k. left. cbn [plookup_go]. rewrite Z. reflexivity.
+    - subst olf. left. intros fresh d k. right. cbn [plookup_go olf_lookup]. destruct (bytes_eqb k1 k); reflexivity.
+  Qed.
+
   Lemma plookup_go_prunes p : forall t,
     prunes p t ->
-    (forall d k, plookup_go H (N.of_nat d) k p = Unknown \/
-                 plookup_go H (N.of_nat d) k p = of_opt (lookup d k t)) \/ collision H.
+    (forall fresh d k, plookup_go H fresh (N.of_nat d) k p = Unknown \/
+                       plookup_go H fresh (N.of_nat d) k p = of_opt (lookup d k t)) \/ collision H.
   Proof.
     induction p as [|h|k0 v0|bl lb lf IHlf l IHl r IHr]; intros t P; cbn [prunes] in P.
-    - subst t. left. intros d k. right. reflexivity.
+    - subst t. left. intros fresh d k. right. reflexivity.
     - destruct (bytes_eqb h (H [])) eqn:Z.
       + pose proof Z as Z'. apply bytes_eqb_eq in Z'. subst h.
         destruct (empty_root t Z') as [->|C]; [|auto].
-        left. intros d k. right. cbn [plookup_go]. rewrite Z. reflexivity.
-      + left. intros d k. left. cbn [plookup_go]. rewrite Z. reflexivity.
-    - subst t. left. intros d k. right. cbn [plookup_go lookup]. destruct (bytes_eqb k0 k); reflexivity.
+        left. intros fresh d k. right. cbn [plookup_go]. rewrite Z. reflexivity.
+      + left. intros fresh d k. left. cbn [plookup_go]. rewrite Z. reflexivity.
+    - subst t. left. intros fresh d k. right. cbn [plookup_go lookup]. destruct (bytes_eqb k0 k); reflexivity.
     - destruct t as [|k' v'|lbl olf tl tr]; try contradiction.
       destruct P as (-> & -> & Plf & Pl & Pr).
+      destruct (lf_go_prunes lf olf Plf) as [Glf|C]; [|auto].
       destruct (IHl tl Pl) as [Gl|C]; [|auto]. destruct (IHr tr Pr) as [Gr|C]; [|auto].
-      left. intros d k. cbn [plookup_go lookup].
+      left. intros fresh d k. cbn [plookup_go lookup].
+      destruct (negb fresh && is_phash lf); [left; reflexivity|].
       rewrite <- Nat2N.inj_add, Nat2N.id.
       set (d' := (d + length lbl)%nat). set (kl := length (bits_of k)).
-      destruct lf as [|h|k1 v1|bl1 lb1 lf1 l1 r1]; cbn [prunes_lf] in Plf; try contradiction; [|left; reflexivity|].
-      + subst olf.
-        destruct (Nat.eqb_spec kl d') as [Ek|Nk].
-        * rewrite Ek, N.eqb_refl. right. reflexivity.
-        * destruct (N.eqb_spec (N.of_nat kl) (N.of_nat d')) as [E2|_]; [lia|].
-          destruct (Nat.ltb_spec kl d') as [Lt|Ge].
-          -- destruct (N.ltb_spec (N.of_nat kl) (N.of_nat d')) as [_|G2]; [|lia]. right. reflexivity.
-          -- destruct (N.ltb_spec (N.of_nat kl) (N.of_nat d')) as [L2|_]; [lia|].
-             destruct (bit (bits_of k) d'); [apply Gr|apply Gl].
-      + subst olf.
-        destruct (Nat.eqb_spec kl d') as [Ek|Nk].
-        * rewrite Ek, N.eqb_refl. right. cbn [plookup_go]. destruct (bytes_eqb k1 k); reflexivity.
-        * destruct (N.eqb_spec (N.of_nat kl) (N.of_nat d')) as [E2|_]; [lia|].
-          destruct (Nat.ltb_spec kl d') as [Lt|Ge].
-          -- destruct (N.ltb_spec (N.of_nat kl) (N.of_nat d')) as [_|G2]; [|lia]. right. reflexivity.
-          -- destruct (N.ltb_spec (N.of_nat kl) (N.of_nat d')) as [L2|_]; [lia|].
-             destruct (bit (bits_of k) d'); [apply Gr|apply Gl].
+      destruct (Nat.eqb_spec kl d') as [Ek|Nk].
+      + rewrite Ek, N.eqb_refl. exact (Glf false (N.of_nat d') k).
+      + destruct (N.eqb_spec (N.of_nat kl) (N.of_nat d')) as [E2|_]; [lia|].
+        destruct (Nat.ltb_spec kl d') as [Lt|Ge].
+        * destruct (N.ltb_spec (N.of_nat kl) (N.of_nat d')) as [_|G2]; [|lia]. right. reflexivity.
+        * destruct (N.ltb_spec (N.of_nat kl) (N.of_nat d')) as [L2|_]; [lia|].
+          destruct (bit (bits_of k) d'); [apply Gr|apply Gl].
   Qed.
 
   (* the write log *)
